@@ -50,6 +50,7 @@ PYVC_MODULES = [
     "contracts.local_ops",
     "contracts.local_sort",
     "contracts.missing_blocks",
+    "contracts.dense_dispatch",
 ]
 
 # Dependency closure: a property also rests on the functions its anchored code CALLS.  A contract task is run
@@ -193,7 +194,7 @@ _ALL = {
     "C16": _p(
         ["bounded.run_C16"],
         "other",
-        "Proof core: symmetry registry and class-symmetry resolution. Bounded: four construction routes agree, both dense round trips, every combination of omitted optional arguments.",
+        "Proof core: symmetry registry and class-symmetry resolution; the symmetry-name dispatch helper utils.from_dense picks the static class of the symmetry asked for (fermionic exactly when asked) and forwards array, maps, directions and charge unchanged; fill_missing_blocks adds exactly the valid sectors as zeros like the stored data. Bounded: four construction routes agree, both dense round trips, every combination of omitted optional arguments.",
     ),
     "C17": _p(
         ["bounded.run_C17"],
